@@ -4,10 +4,20 @@ import MitumModel.Gen.C31
 namespace Mitum.Driver
 open Mitum Mitum.Hint
 
+/-- `M.m.p` or `M.m.p-id1.id2…` -/
 def c31Ver (s : String) : Option Ver :=
-  match (s.splitOn ".").mapM String.toNat? with
-  | some [a, b, c] => some ⟨a, b, c⟩
-  | _ => none
+  let parts := s.splitOn "-"
+  match parts with
+  | [] => none
+  | core :: rest =>
+    match (core.splitOn ".").mapM String.toNat? with
+    | some [a, b, c] =>
+      let pre := if rest.isEmpty then [] else (("-".intercalate rest).splitOn ".").map String.toList
+      some { major := a, minor := b, patch := c, pre := pre }
+    | _ => none
+
+def c31VerStr (v : Ver) : String :=
+  s!"v{v.major}.{v.minor}.{v.patch}" ++ (if v.pre.isEmpty then "" else "-" ++ ".".intercalate (v.pre.map String.ofList))
 
 def stepC31 (ts : List String) : String :=
   let rej := Gen.C31.typeRejectsMarker
@@ -35,7 +45,23 @@ def stepC31 (ts : List String) : String :=
         | none => (acc.1, acc.2 ++ ["bad-op"])
       | ["t", ty] =>
         let r := findByType acc.1 ty
-        (r.1, acc.2 ++ [match r.2 with | .found h x => s!"v{h.v.major}.{h.v.minor}.{h.v.patch}={x}" | .notFound => "none"])
+        (r.1, acc.2 ++ [match r.2 with | .found h x => s!"{c31VerStr h.v}={x}" | .notFound => "none"])
+      | ["fs", raw] =>
+        -- FindByString: a string with a version marker is parsed and looked up like Find, else an error
+        match parse raw.toList with
+        | some (ty, vtext) =>
+          match c31Ver (String.ofList (vtext.drop 1)) with
+          | some v =>
+            let r := find acc.1 ⟨String.ofList ty, v⟩
+            (r.1, acc.2 ++ [match r.2 with | .found _ x => toString x | .notFound => "none"])
+          | none => (acc.1, acc.2 ++ ["none"])
+        | none => (acc.1, acc.2 ++ ["err"])
+      | ["ts", raw] =>
+        -- FindBytTypeString: an invalid type string is an error, else like FindBytType
+        if typeValid rej Gen.C31.minTypeLength Gen.C31.maxTypeLength raw.toList then
+          let r := findByType acc.1 raw
+          (r.1, acc.2 ++ [match r.2 with | .found h x => s!"{c31VerStr h.v}={x}" | .notFound => "none"])
+        else (acc.1, acc.2 ++ ["err"])
       | _ => (acc.1, acc.2 ++ ["bad-op"])
     joinSp (ops.foldl step (CSet.empty, [])).2
   | _ => "bad-op"
